@@ -14,6 +14,7 @@ the real doWF, the float results are turned into exact rationals and ONE batched
 
 Python never computes an expected value: it converts <<n, d>> pairs to floats and compares."""
 import itertools
+import os
 from concurrent.futures import ThreadPoolExecutor
 from fractions import Fraction
 
@@ -63,8 +64,25 @@ def model(gains, first, lens, powers, noises, energies, dev=(), emit=True, invar
 
 def run_model(job):
     cfg, defs = model(**job["model"])
-    return tlc.run(MODULE, cfg, defs=defs, coverage=job.get("coverage", False), heap="1g", workers=1,
-                   timeout=job.get("timeout", 1500), env=JVM_ENV)
+    kw = dict(defs=defs, coverage=job.get("coverage", False), heap="1g", workers=1,
+              timeout=job.get("timeout", 3000), env=JVM_ENV)
+    cache = os.environ.get("VERIF_C12_CACHE")   # builders' aid for mutation runs only (the TLC side does not
+    if not cache:                               # depend on the tree under test); never set by registered commands
+        return tlc.run(MODULE, cfg, **kw)
+    import hashlib
+    import pickle
+    spec = open(os.path.join(tlc.SPEC, MODULE)).read()
+    key = hashlib.sha1(repr((spec, cfg, sorted(defs.items()), kw["coverage"])).encode()).hexdigest()
+    path = os.path.join(cache, key + ".pkl")
+    if os.path.exists(path):
+        return pickle.load(open(path, "rb"))
+    r = tlc.run(MODULE, cfg, **kw)
+    r.out = ""
+    os.makedirs(cache, exist_ok=True)
+    with open(path + ".tmp", "wb") as f:
+        pickle.dump(r, f)
+    os.replace(path + ".tmp", path)
+    return r
 
 
 # ------------------------------------------------------------------ driving the real doWF
@@ -140,7 +158,7 @@ def partitions(tier):
         for p, n0, f in itertools.product(POWERS, NOISES, G_WIDE):
             jobs.append({"name": f"wide P={p} N0={n0} g1={f}", "model": dict(
                 gains=G_WIDE, first=[f], lens=[1, 2, 3, 4], powers=[p], noises=[n0], energies=ENERGIES,
-                OptAMax=[(160, 1), (160, 1), (64, 1)], ExAMax=(160, 1), GridN=4)})
+                OptAMax=[(160, 1), (32, 1)], ExAMax=(32, 1), GridN=4)})
     return jobs
 
 
@@ -176,7 +194,7 @@ def run(ctx):
                         "integers; longer vectors rely on KKT + concavity lemma (WaterFilling.tla header)",
                         "inputs are strictly positive finite numbers"]
     jobs = partitions(ctx.tier)
-    with ThreadPoolExecutor(16) as ex:
+    with ThreadPoolExecutor(int(os.environ.get("VERIF_PROCS", "0") or 0) or 16) as ex:
         futs = [ex.submit(run_model, j) for j in jobs]      # big partitions first, small model runs behind them
         model_devs(ctx, ex)
         runs = [f.result() for f in futs]
